@@ -330,6 +330,8 @@ def St.mapRes (s : St) (f : Res → Res) : St := { s with res := s.res.map (fun 
 inductive Op
   | setFlags (online dev usePre : Bool)
   | add (id ver : Str) (avail cur pre : Bool) (idx : Option Bool)
+  | addMany (items : List (Str × Str)) (avail cur pre : Bool) (idx : Option Bool)
+  | addVersion (id ver : Str) (avail cur pre : Bool)
   | touch (id ver : Str) (kind : Nat)
   | select
   | getFile (id : Str)
@@ -366,12 +368,28 @@ def Res.getFile (fl : Flags) (id : Str) (r : Res) : Res × Out :=
       else if !fl.online then (r1, .errNotLocal)
       else ({ r1 with active := some v, disk := diskAdd (v, 0) r1.disk }, out)   -- downloaded
 
+/-- `ResourceRegistry.addResource`: the resource is created if unknown, `res.Index = index`, then `AddVersion`. -/
+def St.addResource (s : St) (id ver : Str) (avail cur pre : Bool) (idx : Option Bool) : St × Bool :=
+  let r := (s.get id).getD {}
+  let (r', ok) := r.addVersion ver avail cur pre idx
+  (s.set id r', ok)
+
 def step (s : St) : Op → St × Out
   | .setFlags o d p => ({ s with fl := { online := o, dev := d, usePre := p } }, .ok)
   | .add id ver avail cur pre idx =>
-    let r := (s.get id).getD {}
-    let (r', ok) := r.addVersion ver avail cur pre idx
-    (s.set id r', if ok then .ok else .errParse)
+    let (s', ok) := s.addResource id ver avail cur pre idx
+    (s', if ok then .ok else .errParse)
+  -- `AddResources`: `addResource` for every (identifier, version) of the map with the same index and flags; errors are
+  -- only logged (the returned "last error" depends on the map iteration order and is not observed)
+  | .addMany items avail cur pre idx =>
+    (items.foldl (fun s it => (s.addResource it.1 it.2 avail cur pre idx).1) s, .ok)
+  -- `Resource.AddVersion` called on an existing resource (its index stays)
+  | .addVersion id ver avail cur pre =>
+    match s.get id with
+    | none => (s, .errNotFound)
+    | some r =>
+      let (r', ok) := r.addVersion ver avail cur pre r.index
+      (s.set id r', if ok then .ok else .errParse)
   | .touch id ver kind =>
     match s.get id, parseVer ver with
     | some r, some v =>
